@@ -7,7 +7,11 @@ ALL = ["C%02d" % i for i in range(1, 21)]
 import importlib, sys
 sys.path.insert(0, os.path.join(ROOT, "lib"))
 CLAIMED = {}
+# only properties the coordinator has integrated and validated on the unchanged tree are claimed
+READY = set(open(os.path.join(ROOT, "lib", "checks", "READY")).read().split())
 for pid in ALL:
+    if pid not in READY:
+        continue
     try:
         mod = importlib.import_module("checks." + pid.lower())
     except ModuleNotFoundError:
